@@ -515,22 +515,47 @@ def check_arrays(out, facts):
         why.append('the bulk read is not guarded by one condition')
     else:
         c = strip(guards[0][1][1])
-        if not (isinstance(c, tuple) and c[0] == 'matchval' and isinstance(strip(c[1]), tuple) and strip(c[1])[0] == 'const' and strip(c[1])[1].endswith('TYPE_INFO')):
-            why.append('the bulk read is not guarded by a match on T::TYPE_INFO: ' + sym.vstr(c)[:120])
+
+        def ev_cond(x, variant):
+            """value of the condition when T::TYPE_INFO is `variant`: matches on TYPE_INFO resolved to the arm for that variant,
+            combined with and / or / not and boolean literals (cfg!); anything else is not recognised (None)"""
+            x = strip(x)
+            if not isinstance(x, tuple) or not x:
+                return None
+            if x[0] == 'lit' and isinstance(x[1], bool):
+                return x[1]
+            if x[0] == 'un' and x[1] == 'Not':
+                v_ = ev_cond(x[2], variant)
+                return None if v_ is None else (not v_)
+            if x[0] == 'bin' and x[1] in ('Or', 'And') and len(x) >= 4:
+                a_, b_ = ev_cond(x[2], variant), ev_cond(x[3], variant)
+                if x[1] == 'Or':
+                    if a_ is True or b_ is True:
+                        return True
+                    return False if (a_ is False and b_ is False) else None
+                if a_ is False or b_ is False:
+                    return False
+                return True if (a_ is True and b_ is True) else None
+            if x[0] == 'matchval' and isinstance(strip(x[1]), tuple) and strip(x[1])[0] == 'const' and strip(x[1])[1].endswith('TYPE_INFO'):
+                for d, arm in x[2]:
+                    lab = d[1] if isinstance(d, tuple) and len(d) > 1 else str(d)
+                    labs = set(str(lab).split('|'))
+                    if variant in labs or '_' in labs:
+                        return ev_cond(arm, variant)
+                return None
+            return None
+        seen_ti = contains(c, lambda y: isinstance(y, tuple) and y and y[0] == 'const' and str(y[1]).endswith('TYPE_INFO'))
+        if not seen_ti:
+            why.append('the bulk read is not guarded by a condition on T::TYPE_INFO: ' + sym.vstr(c)[:120])
         else:
-            seen_unknown = False
-            for d, x in c[2]:
-                lab = d[1] if isinstance(d, tuple) and len(d) > 1 else str(d)
-                val = eval_expr(x, lambda a: None)
-                labs = set(str(lab).split('|'))
-                if labs & {'Unknown', '_'}:
-                    seen_unknown = True
-                    if val is not False:
-                        why.append('the bulk read is reachable for element types without a primitive TYPE_INFO (arm %s => %s)' % (lab, sym.vstr(x)[:80]))
-                elif val not in (True, False):
-                    why.append('bulk condition of arm %s is not a constant: %s' % (lab, sym.vstr(x)[:80]))
-            if not seen_unknown:
-                why.append('the match on TYPE_INFO has no arm for Unknown')
+            vu = ev_cond(c, 'Unknown')
+            if vu is not False:
+                why.append('the bulk read is reachable for element types without a primitive TYPE_INFO (condition for Unknown: %s): %s'
+                           % (vu, sym.vstr(c)[:140]))
+            for pv in sorted(p.upper() for p in ('u8', 'i8', 'u16', 'i16', 'u32', 'i32', 'u64', 'i64', 'u128', 'i128', 'f32', 'f64')):
+                if ev_cond(c, pv) not in (True, False):
+                    why.append('bulk condition for TYPE_INFO %s is not a constant: %s' % (pv, sym.vstr(c)[:100]))
+                    break
     g = roles(facts).get('array_bytesize')
     if g:
         ev2 = sym.Evaluator(facts)
